@@ -68,8 +68,17 @@ def needleman_wunsch(s1, s2, window=None, max_dist=None,
     """
     if substitution is None:
         substitution = _default_substitution_fn
+    border = _needleman_wunsch_border
+    if len(s1) > 0 or len(s2) > 0:
+        # Leading gaps cost the same as gaps inside the alignment
+        v1 = s1[0] if len(s1) > 0 else s2[0]
+        v2 = s2[0] if len(s2) > 0 else s1[0]
+        _, gap = substitution(v1, v2)
+        if gap != 1:
+            def border(ri, ci):
+                return gap * _needleman_wunsch_border(ri, ci)
     value, scores, paths = dp(s1, s2,
-                       fn=substitution, border=_needleman_wunsch_border,
+                       fn=substitution, border=border,
                        penalty=0, window=window, max_dist=max_dist,
                        max_step=max_step, max_length_diff=max_length_diff, psi=psi)
     return -value, -scores, paths
